@@ -24,6 +24,11 @@ META = dict(
     design_ref="DESIGN.md §6 C04")
 
 
+def big_ints(x):
+    """the model computes in unbounded integers: runs that leave the int range are outside what it speaks about (C05 covers arithmetic)"""
+    return any(abs(int(v)) >= 2 ** 30 for v in re.findall(r"i(-?\d+)", x))
+
+
 def strip_tags(x):
     return " ".join(p for p in x.split(" ") if not p.startswith("tags="))
 
@@ -70,6 +75,7 @@ def run(ctx):
         labels = ["%s :: %s" % (mode, t[:700]) for t in src]
         # (a) hints off: the engine must resolve names as the specification does (the Lean evaluator with `resolve`)
         found += C.compare_streams(ctx, "evalprog", ["hints=0 " + l for l in labels], [strip_tags(x) for x in m0], i0,
+                                   skip=lambda spec, model, line: big_ints(spec) or big_ints(model),
                                    nontrivial=lambda impl, line: "eval(" in line or "fun" in line or "def " in line, bucket=lambda line: "hints-off/" + line.split(" ")[1])
         # (b) hints on: must equal hints off, except where the model reproduces the engine and flagged a stale hint
         lines = []
@@ -80,8 +86,13 @@ def run(ctx):
             if impl == model and "2" in tags.split(","):
                 return "STALE_LOOKUP_HINT"
             return None
-        found += C.compare_streams(ctx, "evalprog", ["hints=1 " + l for l in labels], lines, i1, known=known,
+        found += C.compare_streams(ctx, "evalprog", ["hints=1 " + l for l in labels], lines, i1, known=known, skip=lambda spec, model, line: big_ints(model) or big_ints(spec),
                                    nontrivial=lambda impl, line: "eval(" in line or "fun" in line or "def " in line, bucket=lambda line: "hints-on/" + line.split(" ")[1])
+        for lab, m, a, b in zip(labels, m1, i1, i0):
+            if (big_ints(m) or big_ints(b)) and a != b:
+                found += 1
+                if found <= 5:
+                    ctx.violation("input", {"mode": "evalprog", "case": lab, "hints_on": a, "hints_off": b})
     # raw programs and the repository's unit-test scripts: engine with hints on vs off
     raw = []
     p = os.path.join(C.VERIF, "corpus", "C04", "raw.txt")
